@@ -237,6 +237,7 @@ class Program:
                     self.classes[short] = r
                     self.class_tu[short] = tu
         self.statics = []            # C definitions of static / namespace-scope variables of the library (C18)
+        self.erase_tags = set()      # element types some vector::erase(begin() + k) call was lowered for
         self.global_vars = {}        # decl name -> C name
         for tu in self.tus:
             for d in tu.docs:
@@ -1709,6 +1710,32 @@ class Fn:
             else:
                 self.emit('vf_vec_%s_insert_front(%s, %s);' % (tag, r, self.rv(args[1])))
             return ''
+        if name == 'erase' and len(args) == 1:
+            # v.erase(v.begin() [+ k]): recognised as a whole idiom (iterators are not modelled); the returned iterator must
+            # be unused.  Mapped to vf_vec_<T>_erase_at(v, k), generated next to the vector model of that element type.
+            # (an iterator has no lowered type: any use of the result stops the extraction where it is bound)
+            it = self.strip(args[0])
+            while it.get('kind') in ('CXXConstructExpr', 'ImplicitCastExpr', 'CXXFunctionalCastExpr'):
+                it = self.strip(it['inner'][0])
+            off = None
+            if it.get('kind') == 'CXXOperatorCallExpr' and self.callee_decl_ref(it)['referencedDecl']['name'] == 'operator+':
+                off = it['inner'][2]
+                it = self.strip(it['inner'][1])
+                while it.get('kind') in ('CXXConstructExpr', 'ImplicitCastExpr', 'CXXFunctionalCastExpr'):
+                    it = self.strip(it['inner'][0])
+            okb = it.get('kind') == 'CXXMemberCallExpr' and it['inner'][0].get('name') == 'begin'
+            if not okb:
+                self.unsupported('vector::erase at a position other than begin() [+ k]', n)
+            mark = len(self.lines)
+            r2 = self.obj(it['inner'][0]['inner'][0])
+            if r2 != r or len(self.lines) != mark:
+                self.unsupported('vector::erase(begin() + k) on a different vector', n)
+            k = self.rv(off) if off is not None else '0'
+            self.p.erase_tags.add((tag, vt.elem.ctype(), vt.elem.is_obj() and vt.elem.kind == 'class'))
+            self.emit('vf_vec_%s_erase_at(%s, (size_t)(%s));' % (tag, r, k))
+            if vt.elem.kind == 'class':
+                self.check_exc()
+            return ''
         self.unsupported('std::vector member %s/%d' % (name, len(args)), n)
 
     def operator_call(self, n, want, into, discard):
@@ -1963,6 +1990,19 @@ class Emitter:
                                                             self.vec_hook(t, 'COPY'), self.vec_hook(t, 'RELOC')))
             else:
                 w('VF_VEC_DEFINE_S(%s, %s)' % (t.tag(), t.ctype()))
+        # vector::erase(begin() + k), emitted only for the element types a translation unit erases from (the pinned tree
+        # has none): elements after k move down by assignment (class elements: the lowered operator=), the size drops by one
+        for tag, cty, iscls in sorted(getattr(p, 'erase_tags', ())):
+            w('void vf_vec_%s_erase_at(vf_vec_%s *v, size_t k)' % (tag, tag))
+            w('{')
+            w('  __CPROVER_assert(k < v->size, "std::vector::erase position within [begin, end)");')
+            w('  for (size_t i = k; i + 1 < v->size; ++i)')
+            if iscls:
+                w('    %s__assign(&v->data[i], &v->data[i + 1]);' % cty.replace('struct ', ''))
+            else:
+                w('    v->data[i] = v->data[i + 1];')
+            w('  v->size = v->size - 1;')
+            w('}')
         for b in bodies:
             w(b)
         unknown = set(self.loop_contracts) - set(p.order)
